@@ -435,6 +435,28 @@ def r09_9(chk, facts):
                          'equal values compare as different' % (ca[:40], cb[:40]), None, fn['q'])
     chk.require(n >= 4, 'R09.9: only %d floating differences found in compare()' % n)
 
+def r09_10(chk, facts):
+    """The order the members are searched by is the order they were sorted by."""
+    chk.rule('R09.10', 'one key ordering: every comparator of the sorted object (the `Comp` handed to std::lower_bound / binary search, the `compare` '
+                       'used by std::sort / stable_sort, operator< of key_value) orders keys with the key type\'s own comparison '
+                       '(basic_string / basic_string_view operator<, compare()), i.e. by char_traits; no comparator uses another primitive '
+                       '(std::lexicographical_compare on the characters, strcmp, memcmp): for `char` those compare signed where char_traits '
+                       'compares unsigned, so non-ASCII keys are sorted one way and searched the other', floor=3)
+    n = 0; seen = set()
+    FOREIGN = ('lexicographical_compare', 'strcmp', 'strncmp', 'wcscmp', 'memcmp', 'lexicographical_compare_three_way')
+    for fn in sorted(facts.functions, key=lambda f: bool(f.get('dep'))):
+        if fn.get('body') is None or not fn['file'].endswith(('sorted_json_object.hpp', 'key_value.hpp')): continue
+        is_cmp = (fn['n'] in ('operator()', 'compare', 'operator<', 'operator<=', 'operator>', 'operator>=')) or fn['n'].startswith('compare')
+        if not is_cmp or (fn['file'], fn['l']) in seen: continue
+        seen.add((fn['file'], fn['l'])); n += 1
+        chk.analysed(fn)
+        bad = [c for c in A.calls_in(fn['body']) if A.callee_name(c) in FOREIGN]
+        site = U.site(fn, 'comparator at line %s' % fn['l'])
+        if not bad: chk.ok('R09.10', site, None)
+        else: chk.fail('R09.10', site, fn['file'], bad[0].get('l'), 'the comparator %s (line %s) orders keys with %s instead of the key type\'s comparison: lookups and the sort disagree on '
+                       'keys with bytes above 0x7F' % (fn['n'], fn['l'], A.callee_name(bad[0])), None, fn['q'])
+    chk.require(n >= 3, 'R09.10: only %d comparators found in the sorted object' % n)
+
 def value_semantics(chk, tier):
     """The basic_json value operations that the patch algorithms are written in terms of: kind-safe storage access in every member function
     (R09.1/R09.2), the comparison matrix (R09.5), the copy siblings (R09.7) and whole-character copies/compares (R05.12)."""
@@ -444,6 +466,8 @@ def value_semantics(chk, tier):
     r09_1_2(chk, facts, model)
     r09_5(chk, facts, model)
     r09_7(chk, facts)
+    r09_8(chk, facts)
+    r09_10(chk, facts)
     from . import c05
     c05.r05_12(chk, tier, units=('core', 'patch'))
 
@@ -460,5 +484,6 @@ def run(chk, tier, only_rule=None):
     r09_7(chk, facts)
     r09_8(chk, facts)
     r09_9(chk, facts)
+    r09_10(chk, facts)
     from . import c05
     c05.r05_12(chk, tier, units=('core', 'patch'))     # object keys of wide-character documents are compared whole
